@@ -1,5 +1,5 @@
 """C19 - any configuration either loads or is rejected with an error, never a crash."""
-import copy, json, os, random
+import copy, json, os, random, shutil
 import tlc, flows, flowcheck
 from common import fresh_dir, ToolError, save_replay
 from daemon import probe, toml_dumps, Raw
@@ -202,6 +202,66 @@ def field_mutations(cfg, rng, limit):
     return muts if limit is None else muts[:limit]
 
 
+MUT_VALUES = (("int", 42), ("negative", Raw("-1")), ("huge int", Raw("99999999999999999999")), ("bool", True), ("empty string", ""),
+              ("list", []), ("long string", "x" * 5000), ("float", Raw("1.5")), ("table", {"a": 1}))
+
+
+def loader_points(template, tier, seed, root):
+    """Every single field mutation, and every PAIR (delete one field of a table, mutate another field of the same table), given to the real
+    configuration loader (MainEventLoop::new through the config-dump probe): it must load or refuse, never crash or hang."""
+    import concurrent.futures as cf
+    from daemon import probe, toml_dumps
+    sections = [k for k, v in template.items() if isinstance(v, list) and v and isinstance(v[0], dict)]
+    points = []
+    for sec in sections:
+        table = template[sec][0]
+        fields = list(table.keys())
+        singles = [(f, "delete", None) for f in fields] + [(f, lab, val) for f in fields for lab, val in MUT_VALUES]
+        for f, lab, val in singles:
+            points.append(("%s.%s %s" % (sec, f, lab), [(sec, f, lab, val)]))
+        for f1 in fields:
+            for f2, lab, val in singles:
+                if f2 != f1:
+                    points.append(("%s: delete %s and %s %s" % (sec, f1, f2, lab), [(sec, f1, "delete", None), (sec, f2, lab, val)]))
+    if tier != "thorough":
+        # quick: every pair whose second half is a deletion, an empty list or an empty string (the shapes fall-back code meets), half of the others
+        rng = random.Random(seed)
+        pairs = [p for p in points if len(p[1]) == 2]
+        core = [p for p in pairs if p[1][1][2] in ("delete", "list", "empty string")]
+        rest = [p for p in pairs if p not in core]
+        points = [p for p in points if len(p[1]) == 1] + core + rng.sample(rest, len(rest) // 2)
+
+    def one(args):
+        i, (name, muts) = args
+        d = os.path.join(root, "l%05d" % i)
+        os.makedirs(d, exist_ok=True)
+        c = copy.deepcopy(template)
+        c["global"] = dict(c.get("global") or {}, accounts_directory=os.path.join(d, "a"), certificates_directory=os.path.join(d, "c"))
+        for sec, f, lab, val in muts:
+            if lab == "delete":
+                c[sec][0].pop(f, None)
+            else:
+                c[sec][0][f] = val
+        conf = os.path.join(d, "acmed.toml")
+        open(conf, "w").write(toml_dumps(c))
+        r = probe("config-dump", {"config": conf}, timeout=60)
+        if r.get("hung"):
+            out, msg, rc = "hang", False, -999
+        elif r.get("crashed"):
+            out, msg, rc = "crash", False, r.get("rc") if r.get("rc") is not None else -999
+        elif r.get("ok"):
+            out, msg, rc = "running", False, 0
+        else:
+            out, msg, rc = "error_exit", bool(r.get("error")), 1
+        keep = None
+        if out in ("crash", "hang"):
+            keep = {"acmed.toml": open(conf).read(), "probe.json": json.dumps({k: v for k, v in r.items() if k != "stderr"}) + "\n" + (r.get("panic") or r.get("stderr", "")[-600:])}
+        shutil.rmtree(d, ignore_errors=True)
+        return {"e": "Start", "hazard": "loader: " + name, "outcome": out, "message": msg, "must": "either", "rc": rc}, keep
+    with cf.ThreadPoolExecutor(max_workers=12) as ex:
+        return list(ex.map(one, list(enumerate(points))))
+
+
 def classify(run):
     rc, err = run["rc"], run["stderr_tail"]
     if run["hung"]:
@@ -253,6 +313,7 @@ def run(ctx):
         specs.append(flowcheck.prepare(dict(tag="C19/m%04d" % len(specs), certs=[cert], attempts=1, timeout=40, cfg_mutator=wrap(),
                                             meta={"family": "field mutation", "hazard": name, "must": "either"})))
     results = flows.run_many(specs, workers=12)
+    lpoints = loader_points(template, ctx.tier, ctx.seed, fresh_dir("C19", "loader"))
     owner = [None] * n_period
     for i, x in enumerate(results):
         run0 = x["runs"][0]
@@ -262,6 +323,12 @@ def run(ctx):
             cls = "running" if (run0["rc"] == 0 and attempts >= 1) else "error_exit"
         lines.append({"e": "Start", "hazard": x["meta"]["hazard"], "outcome": cls, "message": bool(msg), "must": x["meta"]["must"], "rc": run0["rc"] if run0["rc"] is not None else -999})
         owner.append(i)
+    lkeep = {}
+    for ev, keep in lpoints:
+        lines.append(ev)
+        owner.append(None)
+        if keep:
+            lkeep[len(lines)] = keep
     root = fresh_dir("C19", "tv")
     path = os.path.join(root, "c19.ndjson")
     open(path, "w").write("".join(json.dumps(e) + "\n" for e in lines))
@@ -277,6 +344,8 @@ def run(ctx):
         seen.add(key)
         o = owner[ln - 1]
         files = {"point.json": ev, "violated.json": labs}
+        if ln in lkeep:
+            files.update(lkeep[ln])
         if o is not None:
             files["acmed.toml"] = os.path.join(results[o]["world"], "acmed.toml")
             files["stderr.txt"] = results[o]["runs"][0]["stderr_tail"]
@@ -294,13 +363,14 @@ def run(ctx):
         outcomes[e["outcome"]] = outcomes.get(e["outcome"], 0) + 1
     cov = {"states": r["distinct"], "transitions": r["generated"], "traces_validated_against_impl": len(lines),
            "samples": [lines[5], lines[n_period - 1], lines[n_period], lines[-1]], "period_strings_judged": n_period,
-           "period_strings_enumerated_by_tlc": len(strings), "daemon_starts_judged": len(results), "outcomes": outcomes, "hook_group_graphs": gcov,
+           "period_strings_enumerated_by_tlc": len(strings), "daemon_starts_judged": len(results), "loader_points_judged": len(lpoints), "outcomes": outcomes, "hook_group_graphs": gcov,
            "exhaustive": False,
            "rule": "TLC enumerates every string of length <= %d over {0,1,9,s,m,w,x}; plus boundary numerals around 2^64/multiplier and random strings; each is parsed by "
                    "the real parse_duration and judged by Period.tla (grammar, value as minutes+seconds, no panic). Structural hazards (group cycles 1..3 through the named group, lassos that only lead to a cycle, via certificate and account lists, diamonds; include "
                    "cycles 1..3, rate limits with number 0 / huge periods / periods above the uptime, overflowing periods) and field-by-field mutations of a valid "
                    "configuration are given to the real daemon with a reachable CA: the outcome (first attempt done | error exit with message | crash | hang) is "
-                   "judged by the specification. Groups.tla enumerates every graph of 3 groups and 2 hooks with bodies of at most one name (exhaustive) and of at most two "
+                   "judged by the specification. Every single field mutation and the pairs (delete one field, mutate another field of the same table; quick: all pairs ending in a deletion / empty list / empty string, half of the others) "
+                   "go through the real loader by the config-dump probe. Groups.tla enumerates every graph of 3 groups and 2 hooks with bodies of at most one name (exhaustive) and of at most two "
                    "names (sampled), cyclic or not; each is loaded by the real MainEventLoop::new through the certificate's or the account's hook list." % maxlen}
     return {"coverage": cov, "assumptions": [
         "byte-level TOML fuzzing is out of scope of the technique (DESIGN.md C19); field-level mutations are a catalogue, not a proof",
